@@ -35,6 +35,7 @@ Inductive op :=
 | OLit (i : nat) (h : handle) (prefix start : okey)  (* an iterator kept alive across later operations *)
 | OLNext (i : nat) (n : nat)                         (* up to n Next() calls on it *)
 | OLRel (i : nat)
+| OStat (h : handle) (prop : nat)   (* Stat(property): 0 disk.size 1 stats 2 iostats 3 async_flush 4 sync_flush 5 alivesnaps, else unknown *)
 | OInit (d : nat).                                     (* LazyFlushable.InitUnderlyingDb: produce and install the store, no flush *)
 
 Inductive obs :=
@@ -45,6 +46,7 @@ Inductive obs :=
 | BNfp (n : nat)
 | BCompact (r : option (okey * okey))   (* None: the request never reached the base store *)
 | BCompactErr (ok : bool)
+| BStat (ok : bool)
 | BLive (l : option (list (key * val)))   (* None: this drain is not predicted (see op_kills_lives) *)
 | BNone.                      (* the operation addressed something that does not exist *)
 
